@@ -354,6 +354,14 @@ def step (st : St) (line : String) : St × String :=
       else (st, both "ok" verdict)
     | none => (st, modelOnly "bad-op")
   | ["s.afterstop"] => (st, both (toString st.search.nodesAfterStop) "0")
+  | ["s.fresh", b, d] =>
+    match parseBoard b, d.toNat? with
+    | some b, some d =>
+      let G := chessGame st.mg (zkeysOf st.skeys)
+      match findBestMove G 100000 b d .none {} with
+      | (some (score, mv), s) => (st, both s!"{score} {optMvText mv} deeper={s.deeperHits}" "?")
+      | (none, _) => (st, both "?" "?")
+    | _, _ => (st, modelOnly "bad-op")
   | ["s.qval", b] =>
     match parseBoard b with
     | some b =>
